@@ -62,7 +62,7 @@ def run(ctx):
     json.dump(gen.traces, open(sp, "w"))
     binp = ctx.go_build("lineproto")
     rp = ctx.path("result.json")
-    e2e = "1500" if ctx.quick() else "0"
+    e2e = "4000" if ctx.quick() else "0"
     reps = "1" if ctx.quick() else "2"
     ctx.run([binp, "-scenarios", sp, "-out", rp, "-seed", str(ctx.seed), "-e2e-max", e2e, "-reps", reps], timeout=3000)
     r = json.load(open(rp))
